@@ -5,6 +5,11 @@ import os
 _COMMON = {"internal/zzverif/c18/c18.go": "c18/common/c18.go", "internal/zzverif/c18/fs.go": "c18/common/fs.go"}
 # which candidate repairs the tree under test carries (fixes/C18-F1.diff, fixes/C18-F2.diff): flipped here once the
 # coordinator has applied them; VERIF_C18_FIXED=F1,F2 overrides for trying a fix in a scratch worktree
+_REAL = dict(_COMMON, **{"internal/rules/zz_verif_c18_test.go": "c18/real_test.go",
+                         "internal/rules/provider/filesystem/zz_verif_c18_export.go": "c18/fs_export.go",
+                         "internal/rules/provider/kubernetes/zz_verif_c18_run.go": "c18/k8s_run.go",
+                         "internal/rules/provider/cloudblob/zz_verif_c18_store.go": "c18/blob_store.go",
+                         "internal/rules/provider/httpendpoint/zz_verif_c18_export.go": "c18/http_export.go"})
 _FIXED = os.environ.get("VERIF_C18_FIXED", "F1,F2,F7,F8")   # in /repo: 9cefff4 (C18-F1), 07a625c (C18-F2, C18-F4), 46996f5 (C18-F7), f7bb6ba (C18-F8)
 _B = lambda f: "true" if f in _FIXED.split(",") else "false"
 
@@ -27,14 +32,12 @@ P = {
         "name": "fs", "pkg": "./internal/rules/provider/filesystem", "test": "TestVerifC18Fs",
         "overlay": dict(_COMMON, **{"internal/rules/provider/filesystem/zz_verif_c18_test.go": "c18/fs_test.go"}),
         "eval_module": "Run.Eval_C18", "check_term": "check_fs " + _B("F2"),
-        "n_quick": 500, "n_thorough": 16000, "findings": {},
+        "n_quick": 400, "n_thorough": 16000, "findings": {},
     }, {
         "name": "fsreal", "pkg": "./internal/rules", "test": "TestVerifC18Real",
-        "overlay": dict(_COMMON, **{"internal/rules/zz_verif_c18_test.go": "c18/real_test.go",
-                                    "internal/rules/provider/filesystem/zz_verif_c18_export.go": "c18/fs_export.go",
-                                    "internal/rules/provider/kubernetes/zz_verif_c18_run.go": "c18/k8s_run.go"}),
+        "overlay": _REAL,
         "eval_module": "Run.Eval_C18", "check_term": "check_fsr " + _B("F2"),
-        "n_quick": 300, "n_thorough": 8000, "findings": {},
+        "n_quick": 250, "n_thorough": 8000, "findings": {},
     }, {
         "name": "fswatch", "pkg": "./internal/rules/provider/filesystem", "test": "TestVerifC18FsWatch",
         "overlay": dict(_COMMON, **{"internal/rules/provider/filesystem/zz_verif_c18w_test.go": "c18/fswatch_test.go"}),
@@ -44,7 +47,7 @@ P = {
         "name": "http", "pkg": "./internal/rules/provider/httpendpoint", "test": "TestVerifC18HTTP",
         "overlay": dict(_COMMON, **{"internal/rules/provider/httpendpoint/zz_verif_c18_test.go": "c18/http_test.go"}),
         "eval_module": "Run.Eval_C18", "check_term": "check_http",
-        "n_quick": 400, "n_thorough": 12000, "findings": {},
+        "n_quick": 300, "n_thorough": 12000, "findings": {},
     }, {
         "name": "httpsched", "pkg": "./internal/rules/provider/httpendpoint", "test": "TestVerifC18HTTPSched",
         "overlay": dict(_COMMON, **{"internal/rules/provider/httpendpoint/zz_verif_c18_test.go": "c18/http_test.go"}),
@@ -52,24 +55,31 @@ P = {
         "n_quick": 3, "n_thorough": 3, "findings": {}, "escalate": False,
     }, {
         "name": "blob", "pkg": "./internal/rules/provider/cloudblob", "test": "TestVerifC18Blob",
-        "overlay": dict(_COMMON, **{"internal/rules/provider/cloudblob/zz_verif_c18_test.go": "c18/blob_test.go"}),
+        "overlay": dict(_COMMON, **{"internal/rules/provider/cloudblob/zz_verif_c18_test.go": "c18/blob_test.go",
+                                    "internal/rules/provider/cloudblob/zz_verif_c18_store.go": "c18/blob_store.go"}),
         "eval_module": "Run.Eval_C18", "check_term": "check_blob " + _B("F1"),
-        "n_quick": 400, "n_thorough": 12000, "findings": {5: "C18-F5", 6: "C18-F6"},
+        "n_quick": 300, "n_thorough": 12000, "findings": {5: "C18-F5", 6: "C18-F6"},
     }, {
         "name": "k8s", "pkg": "./internal/rules/provider/kubernetes", "test": "TestVerifC18K8s",
         "overlay": dict(_COMMON, **{"internal/rules/provider/kubernetes/zz_verif_c18_test.go": "c18/k8s_test.go",
                                     "internal/rules/provider/kubernetes/zz_verif_c18_run.go": "c18/k8s_run.go"}),
         "eval_module": "Run.Eval_C18", "check_term": "check_k8s " + _B("F7") + " " + _B("F8"),
-        "n_quick": 300, "n_thorough": 6000, "findings": {},
+        "n_quick": 250, "n_thorough": 6000, "findings": {},
     }, {
         "name": "k8sreal", "pkg": "./internal/rules", "test": "TestVerifC18K8sReal",
-        "overlay": dict(_COMMON, **{"internal/rules/zz_verif_c18_test.go": "c18/real_test.go",
-                                    "internal/rules/provider/filesystem/zz_verif_c18_export.go": "c18/fs_export.go",
-                                    "internal/rules/provider/kubernetes/zz_verif_c18_run.go": "c18/k8s_run.go"}),
+        "overlay": _REAL,
         "eval_module": "Run.Eval_C18", "check_term": "check_k8sr " + _B("F7") + " " + _B("F8"),
         "n_quick": 200, "n_thorough": 4000, "findings": {},
+    }, {
+        "name": "httpreal", "pkg": "./internal/rules", "test": "TestVerifC18HTTPReal", "overlay": _REAL,
+        "eval_module": "Run.Eval_C18", "check_term": "check_hreal",
+        "n_quick": 150, "n_thorough": 4000, "findings": {},
+    }, {
+        "name": "blobreal", "pkg": "./internal/rules", "test": "TestVerifC18BlobReal", "overlay": _REAL,
+        "eval_module": "Run.Eval_C18", "check_term": "check_breal",
+        "n_quick": 150, "n_thorough": 4000, "findings": {},
     }],
-    "rule": "eight streams, every one through REAL code of /repo, corpus (witnesses of C18-F1/F2/F4/F5/F6/F7/F8 + corpus/C18/*.json) "
+    "rule": "ten streams, every one through REAL code of /repo, corpus (witnesses of C18-F1/F2/F4/F5/F6/F7/F8 + corpus/C18/*.json) "
             "first, then generated histories of 1-30 events over 1-3 sources: "
             "fs = file changes (valid/absent/empty/invalid, 5 empty and 11 invalid byte variants) x fsnotify events of every kind "
             "incl. combined op bits, orderly and out-of-order/repeated/stale notifications, initial loads, via "
@@ -87,7 +97,10 @@ P = {
             "changes, initial list, relists after 410 Gone (deleted / re-created / changed meanwhile), ~25% cases with "
             "deliveries an API server would not make; handler panics observed; "
             "k8sreal = the same histories against the real rule-set processor, rule factory (stub catalogue) and repository, "
-            "reading what the repository holds per object after every event. "
+            "reading what the repository holds per object after every event; "
+            "httpreal / blobreal = polls of 2-3 endpoints / single-key buckets through watchChanges against the real processor, "
+            "factory and repository with contents of four conflict classes sharing a path (a valid set refused while another "
+            "source holds the path, applied at a later poll), reading stored hashes and repository per poll. "
             "12-20% of the contents are rejected by the processor (unsupported version / unknown mechanism); 6-30% of the "
             "fs/http/blob(single key)/k8s cases have a source whose deletion the processor refuses (correspondence only). "
             "Non-trivial = the history produced an accepted update or deletion, or kept a loaded version while seeing an "
@@ -102,7 +115,7 @@ P = {
                 "valid) is data of the case, realised by real bytes the real parser classifies in the run; the drivers map "
                 "(content type, bytes) and (injected failure, listing) to the model's classes",
                 "the rule-set processor is an oracle per content (accept/reject) and per source (deletion accepted/refused); the "
-                "streams fsreal and k8sreal check that the real processor+factory+repository behave like that oracle and like the ideal "
+                "streams fsreal, k8sreal, httpreal, blobreal check that the real processor+factory+repository behave like that oracle and like the ideal "
                 "repository keyed by source id — including update/delete of something not loaded, which the Kubernetes provider "
                 "relies on — for rule sets that do not compete for paths",
                 "event delivery is modelled only as 'one notification per atomic change, in order' (fswatch) and 'polls one after "
@@ -138,7 +151,8 @@ P = {
     "assumptions": ["in-package drivers read Provider.states / BucketState and call unexported handlers: a rename or a change of "
                     "representation of those breaks the driver (reported as correspondence-broken), not the property",
                     "the processor's answer depends only on the content (create/update) or the source (delete), not on the call history "
-                    "(rule sets of different sources competing for the same path are outside the model: C06)",
+                    "in the theorems; acceptance depending on what other sources have loaded (route conflicts) is exercised by the "
+                    "httpreal/blobreal streams against a specification on the loaded contents, without a theorem",
                     "fairness is a hypothesis: every change is followed by a notification / poll that is processed"],
 }
 
